@@ -68,6 +68,11 @@ def special_cases():
     one('.ascii "abc" <n> "d"\n.asciz /x/ <n>\n.rad50 /abcd/ <n>\n.even\nw: .word w\nn = 5\n')
     one('.include "i.mac"\nafter: .word after\n', {"i.mac": ".blkb m\n.even\nil: .word il\nm = 3\n"})
     one('insert_file "b.bin"\n.even\nafter: .word after\n', {"b.bin": bytes(range(7))})
+    # a path that is only known after a later definition: the statement stays deferred, its size must still count
+    one('.include "i" <n> ".mac"\nafter: .word after, .\nn = 67\n', {"i7.mac": ".byte 1,2,3,4\n"})
+    one('.byte 1\n.even\n.include "i" <n> ".mac"\n.even\nafter: .word after, .\nn = 60 + k\nk = 7\n', {"i7.mac": ".ascii /abcde/\n.even\n.word .\n"})
+    one('insert_file "b" <60+n> ".bin"\n.even\nafter: .word after, .\nn = 3\n', {"b3.bin": bytes(range(9))})
+    one('.link 2000\ninsert_file "b" <n> ".bin"\n.include "i" <n> ".mac"\n.even\nafter: .word after, .\nn = 63\n', {"b3.bin": bytes(range(5)), "i3.mac": ".byte 7\n.even\n.word .\n"})
     one('.include "t.mac"\n.byte 1\n.include "t.mac"\n.repeat 2 { .include "./t.mac"\n }\n.even\nafter: .word after, .\n', {"t.mac": ".even\n.word ., 125252\n.byte 5\n"})
     one("a, b\n1, 2, 3\n.even\nl: .word l\na = 1\nb = 2\n")
     one(".word\n.byte\n.even\n.dword\nl: .word l\n")
@@ -324,3 +329,15 @@ _explore_without_r = explore
 def explore(rep, br, tier, seed):
     _explore_without_r(rep, br, tier, seed)
     r_corr.explore_r(rep, tier, seed)
+
+
+# --- PA: the text -> tree -> program -> bytes pipeline entirely in Gallina (Model/StmtParse.parse_file, Model/ParseAsm.to_asm,
+# Model/Asm + AsmRel assemble), evaluated in coqc and compared with pdpy11's bytes and with tools/ast2coq.py's conversion
+import pa_corr  # noqa: E402
+RUN_FILES = RUN_FILES + ["Run/PARun.v"]
+_explore_without_pa = explore
+
+
+def explore(rep, br, tier, seed):
+    _explore_without_pa(rep, br, tier, seed)
+    pa_corr.explore_pa(rep, tier, seed)
